@@ -25,7 +25,7 @@ def sdiv(numerator, denominator):
     :return: Array
     """
 
-    if np.isscalar(numerator):
+    if np.ndim(numerator) == 0:
         return np.divide(numerator, denominator, out=np.zeros_like(denominator, dtype=float), where=numerator != 0)
     else:
         return np.divide(numerator, denominator, out=np.zeros_like(numerator, dtype=float), where=numerator != 0)
